@@ -17,3 +17,6 @@ open IrVerif.Device
 #print axioms C19_inline_pass_axes
 #print axioms C19_step_any
 #print axioms C19_history_any
+#print axioms C19_step_weak
+#print axioms C19_weak_checker
+#print axioms C19_history_weak
